@@ -422,6 +422,8 @@ func (g *G) NameAddr(contactLike bool) string {
 	}
 	if disp == 3 {
 		sb.WriteString(g.URI(true))
+	} else if !g.Strict && g.R.Chance(1, 40) {
+		sb.WriteString("<>") // empty URI between the brackets
 	} else {
 		sb.WriteString("<" + g.URI(false) + ">")
 	}
